@@ -53,6 +53,10 @@ def gen_inorder(hist, rng, count=None):
         lo = max(0, cap.wire_len - rng.choice([0, 0, 2]))
         while hi < n and hi - cap.wire_len < k and hist.reports[hi].vg[1:] == cap.snap.vg[1:]:
             hi += 1
+        if rng.random() < 0.25 and hi < n and hist.reports[hi].vg[1:] == cap.snap.vg[1:]:
+            # the next report arrives in a thread that is stopped at the buffer lock of the pre-check (forced schedule)
+            ev.append(('race', ci, ci, list(range(lo, hi)), hi, rng.choice(['before-lock', 'in-lock'])))
+            return hi + 1, cap.snap.vg[1:]
         ev.append(('reload', ci, ci, list(range(lo, hi))))
         return hi, cap.snap.vg[1:]
     pos, ids = load(c0)
